@@ -579,6 +579,56 @@ theorem normIndex_spec (n : Nat) (p : Int) :
         rw [this, ← Int.add_emod_right p n, Int.emod_eq_of_lt h0 (by omega)]
       · cases h
 
+/-- `find_vals`: marks, in column-major order, exactly the entries of `m` that occur in `v`. -/
+theorem find_vals_spec (rows : List (List Int)) (v : List Int) :
+    findVals rows v = (colMajor rows).map (fun x => decide (x ∈ v)) := by
+  unfold findVals
+  apply List.map_congr_left
+  intro x _
+  rw [foldl_or_mem]; simp
+
+/-- `find_rows`: for a matrix whose rows have the length of `row`, marks exactly the rows equal
+to `row`; a `row` of another length gives the empty vector. -/
+theorem find_rows_spec (rows : List (List Int)) (c : Nat) (row : List Int) :
+    (c ≠ row.length → findRows rows c row = []) ∧
+    (c = row.length → (∀ r ∈ rows, r.length = c) →
+      findRows rows c row = rows.map (fun r => decide (r = row))) := by
+  unfold findRows
+  constructor
+  · intro h; simp [h]
+  · intro h hr
+    simp only [h, ne_eq, not_true_eq_false, if_false]
+    apply List.map_congr_left
+    intro r hrm
+    have := zip_abs_sum_zero r row (by rw [hr r hrm, h])
+    by_cases he : r = row
+    · subst he; simp [this.mpr rfl]
+    · have : ¬ (((r.zip row).map fun p => (p.1 - p.2).natAbs).sum = 0) := fun hs => he (this.mp hs)
+      simp [he, this]
+
+/-- `find_unique` (at least two values; `tol = tn/td`): the first value is always kept, value
+`i+1` is kept iff `|y[i+1]-y[i]| > |tol| * max|diff|`, where the maximum is attained. -/
+theorem find_unique_spec (y : List Int) (tn : Int) (td : Nat) (out : List Bool)
+    (h : findUnique y tn td = .ok out) :
+    ∃ M : Nat, (∀ d ∈ diffs y, d.natAbs ≤ M) ∧ (∃ d ∈ diffs y, d.natAbs = M) ∧
+      out = true :: (diffs y).map (fun d => decide (tn.natAbs * M < d.natAbs * td)) := by
+  unfold findUnique at h
+  cases hm : diffs y with
+  | nil => rw [hm] at h; cases h
+  | cons d t =>
+      rw [hm] at h
+      simp only [Except.ok.injEq] at h
+      obtain ⟨_, h2, h3⟩ := foldl_max_spec (d :: t) 0
+      refine ⟨_, h2, ?_, h.symm⟩
+      rcases h3 with h0 | hex
+      · refine ⟨d, List.mem_cons_self, ?_⟩
+        have := h2 d List.mem_cons_self
+        omega
+      · exact hex
+
+example : findUnique [4, 4, -2, -2, 0, -2] 1 1000000 = .ok [true, false, true, false, true, true] := by
+  decide
+
 example : matIntersect [5, 7, 9] [7, 5] 1 1 1 = ([0, 1], [1, 0]) := by
   simp [matIntersect, lookupAll, argsort, lookup, searchsortedLeft, List.mergeSort, List.zipIdx,
     List.MergeSort.Internal.splitInTwo]
